@@ -1,6 +1,7 @@
 (* C15_Props.v — property C15 "String helpers cut, pad, wrap and re-case without
    losing or inventing text", stated over the model of C15_Model.v (string.go
-   after the three repairs of fixes/builder-c15).  Only statements here; each is
+   after the three repairs of fixes/builder-c15 and the Substr repair of
+   fixes/deepen-c15 = /repo 6d6c881).  Only statements here; each is
    closed by [exact] of a lemma of Utf8.v / C15_Proofs.v / C15_ProofsCase.v and
    followed by Print Assumptions.
 
@@ -15,18 +16,74 @@ Local Open Scope Z_scope.
 
 (* ================= Substr ================= *)
 
-(* Substr returns exactly the byte range of the PHP rule (C15_Spec.substr_ref:
-   negative offset/length count from the end, a non-negative length is clipped
-   at the end of the string, a selection not inside the string is empty) — for
-   ALL byte strings and ALL integers *)
-Theorem C15_substr_spec : forall s off len, substr s off len = Ok (substr_ref s off len).
-Proof. exact substr_ok. Qed.
+(* [substr_go] is Substr on Go's 64-bit ints (the wrap-around of every +, - and
+   unary - written in); [int64 x] says x is such an int; a Go string has at most
+   math.MaxInt bytes.  [substr_ref] is the PHP rule over the integers
+   (C15_Spec: negative offset/length count from the end, a non-negative length
+   is clipped at the end of the string, a selection not inside the string is
+   empty). *)
+
+(* Substr returns exactly the byte range of the rule — for ALL byte strings and
+   EVERY int offset and length, math.MaxInt and math.MinInt included *)
+Theorem C15_substr_spec : forall s off len,
+  int64 off -> int64 len -> blen s <= maxint ->
+  substr_go s off len = Ok (substr_ref s off len).
+Proof. exact substr_go_ok. Qed.
 Print Assumptions C15_substr_spec.
 
 (* ... and in particular the slice expression at its end never panics *)
-Theorem C15_substr_never_panics : forall s off len, substr s off len <> Panic.
-Proof. exact substr_never_panics. Qed.
+Theorem C15_substr_never_panics : forall s off len,
+  int64 off -> int64 len -> blen s <= maxint -> substr_go s off len <> Panic.
+Proof. exact substr_go_never_panics. Qed.
 Print Assumptions C15_substr_never_panics.
+
+(* non-vacuity, the three sign combinations and the ends of the int range: "a-é1" (5 bytes) *)
+Example C15_substr_examples :
+  let s := [97; 45; 195; 169; 49] in
+  substr_go s (-4) (-1) = Ok [45; 195; 169] /\          (* 4th from the end up to, not including, the last *)
+  substr_go s 1 2 = Ok [45; 195] /\                     (* a byte range may cut a rune *)
+  substr_go s (-2) 9 = Ok [169; 49] /\                  (* the length is clipped at the end *)
+  substr_go s 1 maxint = Ok [45; 195; 169; 49] /\       (* "from 1 to the end" *)
+  substr_go s (-1) maxint = Ok [49] /\ substr_go s minint 1 = Ok [] /\ substr_go s 0 minint = Ok [] /\
+  substr_go s 6 1 = Ok [] /\ substr_go s (-6) 1 = Ok [] /\ substr_go s 3 (-3) = Ok [].   (* outside: empty *)
+Proof. vm_compute. repeat split. Qed.
+
+(* the same statements in unbounded integer arithmetic ([substr]) are the rule
+   for all integers; the calls splitStringWithDelimiter makes (offset, length
+   >= 0, offset + length <= len(str) + 2) are ints, so for them the 64-bit
+   function IS the unbounded one — which is what the case-style model uses *)
+Theorem C15_substr_unbounded_arith : forall s off len, substr s off len = Ok (substr_ref s off len).
+Proof. exact substr_ok. Qed.
+Print Assumptions C15_substr_unbounded_arith.
+
+Theorem C15_substr_internal_calls : forall s off len,
+  blen s + 2 <= maxint -> 0 <= off -> 0 <= len -> off + len <= blen s + 2 ->
+  substr_go s off len = substr s off len.
+Proof. exact substr_go_internal. Qed.
+Print Assumptions C15_substr_internal_calls.
+
+(* ---- witnesses about the code SHIPPED BEFORE /repo 6d6c881 only ([substr_go_unrepaired]:
+   end = offset + length, then clipped) — not about the code under test.  The sum wrapped when
+   the start was inside the string and start + length exceeded math.MaxInt:
+   Substr("abc", 1, math.MaxInt) was "" where the rule selects "bc" ---- *)
+Theorem C15_substr_unrepaired_refuted : exists s off len,
+  int64 off /\ int64 len /\ blen s <= maxint /\ substr_go_unrepaired s off len <> Ok (substr_ref s off len).
+Proof.
+  exists [97; 98; 99], 1, maxint. repeat split; try (vm_compute; congruence).
+Qed.
+Print Assumptions C15_substr_unrepaired_refuted.
+
+(* whenever it happened the result was "" and the rule's selection was not empty;
+   everywhere else the shipped code already was the rule *)
+Theorem C15_substr_unrepaired_overflow_loses_text : forall s off len,
+  int64 off -> int64 len -> blen s <= maxint ->
+  substr_go_unrepaired s off len = Ok (if substr_overflows s off len then [] else substr_ref s off len)
+  /\ (substr_overflows s off len = true -> substr_ref s off len <> []).
+Proof.
+  intros s off len Ho Hl Hn. split; [apply substr_go_unrepaired_exact; assumption|].
+  intros Hv. exact (proj2 (substr_go_unrepaired_overflow_loses s off len Ho Hl Hn Hv)).
+Qed.
+Print Assumptions C15_substr_unrepaired_overflow_loses_text.
 
 (* what "the byte range [a,b)" means: the string is pre ++ range ++ post with |pre| = a, |range| = b-a *)
 Theorem C15_byte_range_meaning : forall s a b,
@@ -72,7 +129,21 @@ Theorem C15_pad_spec : forall s size tok,
 Proof. exact pad_spec. Qed.
 Print Assumptions C15_pad_spec.
 
-(* non-vacuity: Pad "abc" 8 "_-" = "_-abc_-_" (the case of TestString_Pad) *)
+Theorem C15_pad_never_panics : forall s size tok,
+  tok <> [] -> pad s size tok <> Panic /\ pad_left s size tok <> Panic /\ pad_right s size tok <> Panic.
+Proof. exact pad_never_panics. Qed.
+Print Assumptions C15_pad_never_panics.
+
+(* the decision used by the property checker (C15_Wire.pad_holds) is the clause *)
+Theorem C15_rep_prefix_decision : forall p tok, tok <> [] -> (rep_prefixb p tok = true <-> rep_prefix p tok).
+Proof. exact rep_prefixb_iff. Qed.
+Print Assumptions C15_rep_prefix_decision.
+
+(* non-vacuity: Pad "abc" 8 "_-" = "_-abc_-_" (the case of TestString_Pad); a multi-byte
+   token is cut at the byte: Pad "a" 6 "é" = C3 A9 | a | C3 A9 C3  (2 left, 3 right) *)
+Example C15_pad_multibyte_example : pad [97] 6 [195; 169] = Ok [195; 169; 97; 195; 169; 195].
+Proof. vm_compute. reflexivity. Qed.
+
 Example C15_pad_example : pad [97; 98; 99] 8 [95; 45] = Ok [95; 45; 97; 98; 99; 95; 45; 95].
 Proof. vm_compute. reflexivity. Qed.
 
@@ -100,6 +171,26 @@ Print Assumptions C15_unwrap_unwrapped_unchanged.
 Theorem C15_unwrap_wrapped_middle : forall s t m, s = t ++ m ++ t -> unwrap s t = Ok m.
 Proof. exact unwrap_wrapped. Qed.
 Print Assumptions C15_unwrap_wrapped_middle.
+
+(* both at once, as the function the property checker compares with: [unwrap_ref] strips
+   exactly when [wrappedb] — starts with t, ends with t, length >= 2|t| — and that decision
+   is [wrapped] *)
+Theorem C15_unwrap_spec : forall s t, unwrap s t = Ok (unwrap_ref s t).
+Proof. exact unwrap_spec. Qed.
+Print Assumptions C15_unwrap_spec.
+
+Theorem C15_wrapped_decision : forall s t, wrappedb s t = true <-> wrapped s t.
+Proof. exact wrappedb_iff. Qed.
+Print Assumptions C15_wrapped_decision.
+
+(* self-overlapping token: "aaa" starts and ends with "aa" but is not wrapped by it; "aaaa" is *)
+Example C15_unwrap_overlap_example :
+  ~ wrapped [97; 97; 97] [97; 97] /\ unwrap [97; 97; 97] [97; 97] = Ok [97; 97; 97]
+  /\ unwrap [97; 97; 97; 97] [97; 97] = Ok [].
+Proof.
+  split; [|vm_compute; split; reflexivity].
+  intros W. apply wrappedb_iff in W. vm_compute in W. discriminate.
+Qed.
 
 Theorem C15_unwrap_never_panics : forall s t, unwrap s t <> Panic.
 Proof. exact unwrap_never_panics. Qed.
@@ -136,6 +227,30 @@ Theorem C15_reverse_str_bytes : forall s, reverse_str s = encode (rev (decode s)
 Proof. exact reverse_str_decode. Qed.
 Print Assumptions C15_reverse_str_bytes.
 
+(* Invalid UTF-8 is outside the clause ("wraps every rune", "reverses runes") but not
+   outside the model: Go's range loop / []rune(s) yield U+FFFD for every byte that does not
+   start a well-formed sequence, and both functions then act on those runes.  So on ANY byte
+   string they are the clause applied to the sanitised string [encode (decode s)] *)
+Theorem C15_wrap_all_rune_bytes : forall s t,
+  bytes s ->
+  wrap_all_rune s t = concat (map (fun r => t ++ encode_rune r ++ t) (decode s))
+  /\ Forall valid_rune (decode s)
+  /\ wrap_all_rune s t = wrap_all_rune (encode (decode s)) t.
+Proof. exact wrap_all_rune_bytes. Qed.
+Print Assumptions C15_wrap_all_rune_bytes.
+
+Theorem C15_reverse_str_sanitised : forall s,
+  bytes s -> reverse_str s = encode (rev (decode s)) /\ reverse_str s = reverse_str (encode (decode s)).
+Proof. exact reverse_str_bytes. Qed.
+Print Assumptions C15_reverse_str_sanitised.
+
+(* "\xff a é": the stray byte becomes U+FFFD (EF BF BD) *)
+Example C15_invalid_utf8_example :
+  bytes [255; 97; 195; 169] /\ decode [255; 97; 195; 169] = [65533; 97; 233]
+  /\ reverse_str [255; 97; 195; 169] = [195; 169; 97; 239; 191; 189]
+  /\ wrap_all_rune [255; 97] [45] = [45; 239; 191; 189; 45; 45; 97; 45].
+Proof. split; [repeat constructor; lia|vm_compute; repeat split]. Qed.
+
 (* ================= ToLower / ToUpper / Capitalize ================= *)
 
 (* rune by rune the case mapping of package unicode (any functions to_lower/to_upper) *)
@@ -155,6 +270,21 @@ Theorem C15_capitalize_map : forall (to_lower to_upper : Z -> Z) r rs,
 Proof. exact capitalize_runes. Qed.
 Print Assumptions C15_capitalize_map.
 
+(* on ANY byte string: the first rune the range loop sees is upper-cased, the others lower-cased *)
+Theorem C15_capitalize_bytes : forall (to_lower to_upper : Z -> Z) s,
+  capitalize to_lower to_upper s =
+  match decode s with [] => [] | r :: rs => encode (to_upper r :: map to_lower rs) end.
+Proof. exact capitalize_decode. Qed.
+Print Assumptions C15_capitalize_bytes.
+
+(* the executable oracle on letters outside ASCII, alone: é -> É, Ö -> ö, ſ -> S (2 bytes to 1),
+   Ⱥ -> ⱥ (2 bytes to 3), and a string without any ASCII letter is still mapped *)
+Example C15_case_map_non_ascii_example :
+  to_upper_str tbl_upper [195; 169] = [195; 137] /\ to_lower_str tbl_lower [195; 150] = [195; 182]
+  /\ to_upper_str tbl_upper [197; 191] = [83] /\ to_lower_str tbl_lower [200; 186] = [226; 177; 165]
+  /\ capitalize tbl_lower tbl_upper [195; 182; 195; 150] = [195; 150; 195; 182].
+Proof. vm_compute. repeat split. Qed.
+
 (* ================= CamelCase / SnakeCase / KebabCase ================= *)
 
 (* Domain: [word_dom s = true] — every byte is an ASCII letter, a digit, a
@@ -167,7 +297,8 @@ Definition ascii_case (to_lower to_upper : Z -> Z) : Prop :=
    by " Foo_barBaz-&9 " *)
 Example C15_table_is_ascii_case : ascii_case tbl_lower tbl_upper.
 Proof.
-  split; intros c H; unfold tbl_lower, tbl_upper, lower_b, upper_b, is_upper, is_lower.
+  split; intros c H; unfold tbl_lower, tbl_upper, lower_b, upper_b, is_upper, is_lower;
+    (destruct (Z.ltb_spec c 256) as [_|H256]; [|lia]).
   - destruct ((65 <=? c) && (c <=? 90)) eqn:E.
     + rewrite orb_true_l. reflexivity.
     + destruct ((192 <=? c) && (c <=? 222) && negb (c =? 215)) eqn:E2; [lia|reflexivity].
